@@ -466,3 +466,6 @@ def run(c, facts):
     c.run(r2_base_flows, facts)
     c.run(r3_from_program, facts)
     c.run(r4_cli_wiring, facts)
+
+
+EXPLANATION += " (R10) DOCUMENT-VERBATIM: the front ends' serialiser calls are instantiated at openapiv3::OpenAPI and the value into_openapi() returned is never mutably borrowed - nothing re-shapes the document between the builder and the writer."
